@@ -29,7 +29,13 @@ BUDGET = {'quick': {'random': 8000, 'shards': 16}, 'thorough': {'random': 300000
 
 KW_POOL_ALT = ['a', 'b', 'key', 'fn', 'ctx', 'args', 'kwargs', 'self', 'value', 'é']
 KW_POOL_CALL = ['a', 'b', 'key', 'args', 'kwargs', 'self', 'value', 'é']
-FIELD_POOL = ['a', 'b', 'x', 'value', 'name', 'fn', 'ctx', 'args', 'kwargs', 'cls']
+FIELD_POOL = ['a', 'b', 'x', 'value', 'name', 'fn', 'ctx', 'args', 'kwargs', 'cls', '_p', '_q_']
+
+
+def init_name(f, lib):
+    """the constructor argument of a field: attrs strips leading underscores of private attributes (dataclasses do not)"""
+    return f['name'].lstrip('_') if lib == 'attrs' else f['name']
+
 FACTORIES = {'list': list, 'dict': dict, 'int': int, 'seven': lambda: 7, 'text': lambda: 'dflt',
              'dinner': lambda: _dyn().DInner(), 'dfrozen1': lambda: _dyn().DFrozen(1), 'ainner': lambda: _dyn().AInner(),
              'dinner-list': lambda: [_dyn().DInner(1, [2])]}
@@ -148,6 +154,12 @@ def _ctx_cases():
 
 def fixed_cases():
     yield from _ctx_cases()
+    for lib in ('dc', 'attrs'):
+        # private attribute names: attrs takes them in the constructor without the leading underscore
+        yield {'kind': 'class', 'lib': lib, 'frozen': False, 'slots': False, 'width': 79, 'indent': 4,
+               'fields': [{'name': '_p', 'default': ['none'], 'repr': True, 'value': ['int', 1]},
+                          {'name': '_q_', 'default': ['val', ['int', 3]], 'repr': True, 'value': ['int', 4]},
+                          {'name': 'x', 'default': ['val', ['int', 0]], 'repr': True, 'value': 'default'}]}
     for pseudo in ([['classvar', 'count', ['int', 0], ['int', 2]]], [['classvar', 'cv', ['str', 'x'], None]], [['initvar', 'iv', ['int', 1], None]],
                    [['classvar', 'registry', ['none'], ['str', 'changed']], ['initvar', 'iv', ['int', 0], None]]):
         for slots in (False, True):
@@ -458,7 +470,7 @@ def oracle_class(case):
         else:
             kwargs[f['name']] = values.build(f['value'])
     try:
-        inst = cls(**kwargs)
+        inst = cls(**{init_name(f, case['lib']): kwargs[f['name']] for f in fields if f['name'] in kwargs})
     except Exception:
         return core.skip('instance-rejected')
     for f in fields:
@@ -469,7 +481,7 @@ def oracle_class(case):
             val = default_value(f, case['lib'], cls, inst, fields)
         differs = (not has_default) or bool(default_value(f, case['lib'], cls, inst, fields) != val)
         if f['repr'] and differs:
-            expected.append(f['name'])
+            expected.append(init_name(f, case['lib']))
         elif differs:
             hidden_off_default = True
     cfg = {'width': case['width'], 'ribbon_width': case['width'], 'indent': case['indent'], 'sort_dict_keys': bool(case.get('sort'))}
@@ -480,13 +492,14 @@ def oracle_class(case):
         import attr as _attr
         try:
             names = [f.name for f in _dcs.fields(base)] if _dcs.is_dataclass(base) else [a.name for a in _attr.fields(base)]
-            values.pp(base(**{k: v for k, v in kwargs.items() if k in names}), **cfg)
+            values.pp(base(**{init_name(f, case['lib']): kwargs[f['name']] for f in fields if f['name'] in kwargs and f['name'] in names}), **cfg)
         except Exception:
             pass
     if case['lib'] == 'attrs' and len(fields) > 1 and any(f['default'][0] == 'facself' for f in fields[1:]):
         # another instance of the same class whose computed defaults differ is printed first
         try:
-            sibling = cls(**dict(kwargs, **{fields[0]['name']: 'ppv-sibling'}))
+            sk = dict(kwargs, **{fields[0]['name']: 'ppv-sibling'})
+            sibling = cls(**{init_name(f, case['lib']): sk[f['name']] for f in fields if f['name'] in sk})
             values.pp(sibling, **cfg)
         except Exception:
             pass
